@@ -99,7 +99,7 @@ def replay_decisions(res, calls, prop, what):
         lo, hi = min(r, rm), max(r, rm)
         marg = min(abs(sum(v * v for v in sv[k:]) - e2) for k in range(max(lo - 1, 0), min(hi + 1, len(sv) + 1)))
         scale = max(t0, e2, Fraction(1, 10 ** 300))
-        if marg <= scale * Fraction(1, 10 ** 10):
+        if marg <= scale * Fraction(1, 10 ** 10) and t0 > 0:      # an all-zero spectrum is exact data: nothing is roundoff there
             indet += 1
             continue
         res.violation({"property": prop, "kind": "correspondence", "class": "rank-decision/" + what, "case": ln[:2000],
